@@ -172,6 +172,12 @@ impl Signature {
 pub trait Serialize {
     /// the octets Serialize::to_writer produces (U36: what is framed and hashed)
     spec fn ser(&self) -> Seq<u8>;
+    /// Serialize::write_len: offered (without a contract here; U75/U76 relate it to ser()) so that code which starts to use it is decided
+    fn write_len(&self) -> (r: usize);
+}
+pub mod ser {
+    #[allow(unused_imports)] use super::*;
+    pub use super::Serialize;
 }
 pub mod types {
     #[allow(unused_imports)] use super::*;
